@@ -169,7 +169,7 @@ impl Gatekeeper {
                 let user_info = UserInfo::new(
                     self.subscription_slots,
                     block_count,
-                    block_count + self.subscription_duration,
+                    block_count.saturating_add(self.subscription_duration),
                 );
                 self.dbm
                     .lock()
@@ -262,7 +262,10 @@ impl Gatekeeper {
             .iter()
             // NOTE: Ideally there won't be a user with `block_height > subscription_expiry + expiry_delta`, but
             // this might happen if we skip a couple of block connections due to a force update.
-            .filter(|(_, info)| block_height >= info.subscription_expiry + self.expiry_delta)
+            // The expiry of a subscription saturates at `u32::MAX` (see [Self::add_update_user]), so does this sum.
+            .filter(|(_, info)| {
+                block_height >= info.subscription_expiry.saturating_add(self.expiry_delta)
+            })
             .map(|(user_id, _)| *user_id)
             .collect()
     }
